@@ -584,6 +584,18 @@ def tournament_pair(g, half):
 
 def C03(g, tier):
     S = lambda f: ["s", f]
+    # the unit object as the crate names it (Monoidal::unit())
+    for _ in range(N(tier, 20, 100)):
+        f = g.ohg()
+        lf = g.lohg()
+        for bk in BACKENDS:
+            yield sx(["law", bk, ["stens", ["sunit"], S(f)], S(f)]), True
+            yield sx(["law", bk, ["stens", S(f), ["sunit"]], S(f)]), True
+            yield sx(["term", bk, ["sunit"]]), False
+        yield sx(["law", "vec", ["ltens", ["lunit"], ["l", lf]], ["l", lf]]), True
+        yield sx(["law", "vec", ["ltens", ["l", lf], ["lunit"]], ["l", lf]]), True
+        yield sx(["term", "vec", ["lunit"]]), False
+        yield sx(["ff_unit_objects", g.r.choice(BACKENDS)]), False
     for _ in range(N(tier, 25, 250)):
         bk = g.r.choice(BACKENDS)
         x = g.nats(g.r.randint(5, 30), 1)
